@@ -73,6 +73,9 @@ def worker(i, q):
             alarms = {}
             for pr in ALL:
                 c = subprocess.run([os.path.join(VERIF, 'check'), pr, '--tier', 'quick'], env=env, stdout=subprocess.PIPE, stderr=subprocess.STDOUT, text=True)
+                if c.returncode != 0 and 'VIOLATION property=' not in c.stdout:
+                    # not a verdict (an infrastructure hiccup under parallel load): once more
+                    c = subprocess.run([os.path.join(VERIF, 'check'), pr, '--tier', 'quick'], env=env, stdout=subprocess.PIPE, stderr=subprocess.STDOUT, text=True)
                 if 'VIOLATION property=' in c.stdout or c.returncode != 0:
                     alarms[pr] = sorted(set('%s %s' % x for x in re.findall(r'^\s+(C\d+\.R\w+) (\S+)', c.stdout, re.M))) or ['exit %d' % c.returncode]
             with lock:
